@@ -161,6 +161,53 @@ pub fn c15(tier: &str, seed: u64) {
         Some(Err(k)) => fail("proof_roundtrip_refused", &[("proof", hex(&pb)), ("err", k)]),
         None => fail("proof_roundtrip_panic", &[("proof", hex(&pb))]),
       }
+      // a decoded value re-encodes to the bytes it was read from: proof bytes that are NOT the
+      // canonical encoding of their scalars (x + k*l, still below 2^256) must be refused - accepting
+      // them makes the proof bytes malleable
+      {
+        // l = 2^252 + 27742317777372353535851937790883648493, little-endian
+        const ELL: [u8; 32] = [0xed, 0xd3, 0xf5, 0x5c, 0x1a, 0x63, 0x12, 0x58, 0xd6, 0x9c, 0xf7, 0xa2, 0xde, 0xf9, 0xde, 0x14, 0, 0, 0, 0, 0, 0, 0, 0, 0, 0, 0, 0, 0, 0, 0, 0x10];
+        let add_l = |x: &[u8], times: usize| -> Option<Vec<u8>> {
+          let mut v = x.to_vec();
+          for _ in 0..times {
+            let mut carry = 0u16;
+            for i in 0..32 {
+              let t = v[i] as u16 + ELL[i] as u16 + carry;
+              v[i] = t as u8;
+              carry = t >> 8;
+            }
+            if carry != 0 {
+              return None;
+            }
+          }
+          Some(v)
+        };
+        for (which, off) in [("c", 0usize), ("s", 32), ("both", 0)] {
+          for times in [1usize, 2, 7] {
+            let mut b = pb.clone();
+            let Some(nc) = add_l(&pb[off..off + 32], times) else { continue };
+            b[off..off + 32].copy_from_slice(&nc);
+            if which == "both" {
+              let Some(ns) = add_l(&pb[32..64], times) else { continue };
+              b[32..64].copy_from_slice(&ns);
+            }
+            case(true);
+            stat("oracle.C15.noncanonical_proof_scalars");
+            match try_proof(&b) {
+              Some(Err(_)) => {}
+              Some(Ok(p2)) => {
+                let re = p2.serialize_to_bincode().ok();
+                let ev2 = Evaluation { output: ev.output.clone(), proof: Some(p2) };
+                fail(
+                  "proof_noncanonical_accepted",
+                  &[("scalar", which.to_string()), ("plus_multiples_of_group_order", times.to_string()), ("bytes", hex(&b)), ("honest_bytes", hex(&pb)), ("reencodes_to", re.map(|r| hex(&r)).unwrap_or_default()), ("verifies", format!("{:?}", verify_guarded(&restored, &bp, &ev2, md)))],
+                );
+              }
+              None => fail("proof_roundtrip_panic", &[("proof", hex(&b))]),
+            }
+          }
+        }
+      }
       for k in 0..pb.len() {
         case(true);
         match try_proof(&pb[..k]) {
@@ -201,6 +248,28 @@ pub fn c15(tier: &str, seed: u64) {
           }
           Some(Err(e)) => fail("eval_json_roundtrip_refused", &[("text", text.clone()), ("err", e)]),
           None => fail("eval_json_roundtrip_panic", &[("text", text.clone())]),
+        }
+        // an `output` string that is well-formed base64 of FEWER (or more) than 32 bytes is not a
+        // point: every prefix length 0..31 and 33 must be an error, never a zero-padded value
+        if n % 4 == 1 || !q {
+          use base64::{engine::Engine as _, prelude::BASE64_STANDARD};
+          let full = BASE64_STANDARD.encode(evx.output.as_bytes());
+          for k in (0..32usize).chain([33usize]) {
+            let mut bytes = evx.output.as_bytes().to_vec();
+            bytes.push(0);
+            let short = BASE64_STANDARD.encode(&bytes[..k]);
+            let t2 = text.replacen(&full, &short, 1);
+            if t2 == text {
+              continue;
+            }
+            case(true);
+            stat("oracle.C15.eval_json_wrong_length_output");
+            match try_eval_json(&t2) {
+              Some(Err(_)) => {}
+              Some(Ok(e2)) => fail("eval_json_partial_point_accepted", &[("decoded_bytes", k.to_string()), ("text", t2.clone()), ("point", hex(e2.output.as_bytes()))]),
+              None => fail("eval_json_roundtrip_panic", &[("text", t2.clone())]),
+            }
+          }
         }
         if n % 8 == 1 || !q {
           for k in 0..text.len() {
